@@ -36,6 +36,9 @@ CONFIGS = [
     ('ugrid edge_face only', inputs.ugrid, {'edges': 'dimension', 'tables': ('edge_face',)},
      ['mesh', 'face_node', 'node_x', 'node_y', 'edge_face']),
     ('ugrid edge_node only', inputs.ugrid, {'edges': 'edge_node'}, ['mesh', 'face_node', 'node_x', 'node_y', 'edge_node']),
+    # edge coordinate variables named by a mesh that defines no edge dimension: they are named in the geometry, they are part of the key
+    ('ugrid edge coordinates without an edge dimension', inputs.ugrid, {'edges': 'none', 'edge_coords': 'without-edge-dimension'},
+     ['mesh', 'face_node', 'node_x', 'node_y', 'edge_x', 'edge_y']),
 ]
 EDITS = ['value', 'value-narrow-encoding', 'dtype', 'reshape', 'rename', 'attr-add', 'attr-add-underscore', 'attr-change', 'attr-remove', 'encoding-dtype']
 
